@@ -3127,6 +3127,16 @@ impl Block {
         // for the hash-comparison to work.
         //
         if cv.ft_num > 0 {
+            // a fee transaction is exempt from every per-transaction check: the block may carry
+            // one only, and only the one its own payout computation produces
+            if cv.ft_num > 1 {
+                error!("ERROR: block has more than one fee transaction");
+                return false;
+            }
+            if cv.fee_transaction.is_none() {
+                error!("ERROR: block has a fee transaction but no payout is due");
+                return false;
+            }
             if let (Some(ft_index), Some(fee_transaction_expected)) =
                 (cv.ft_index, cv.fee_transaction)
             {
